@@ -313,6 +313,48 @@ def run(rep, tier, seed, keep=False):
                     seen_pos.add(key)
                     del log[:]
                     run_expr(text, binds, name, where + ' in ' + tp.name)
+        # the canary where a lambda is expected: call(name, args, kwargs) hands values over to lazy parameters
+        nlam = 0
+        for name, fd in c08.all_fds(ctx):
+            if name.startswith('#') or name in ('call',):
+                continue
+            ps = c08.visible_params(fd)
+            from yaql.language import yaqltypes
+            for ti, tp in enumerate(ps):
+                if not isinstance(tp.value_type, yaqltypes.Lambda):
+                    continue
+                vals = []
+                ok = True
+                for i, p in enumerate(ps):
+                    if i == ti:
+                        vals.append('$c')
+                    elif isinstance(p.value_type, yaqltypes.LazyParameterType):
+                        vals.append('1')
+                    else:
+                        for k, cnd in enumerate([[1, 2], 'a', 2, {'a': 1}, True, None]):
+                            try:
+                                if p.value_type.check(cnd, ctx, engine):
+                                    vals.append('$k%d' % k)
+                                    break
+                            except Exception:
+                                continue
+                        else:
+                            if p.default is not None and 'NO_DEFAULT' not in repr(p.default):
+                                break
+                            ok = False
+                            break
+                if not ok:
+                    continue
+                binds = {'c': canary, 'k0': [1, 2], 'k1': 'a', 'k2': 2, 'k3': {'a': 1}, 'k4': True, 'k5': None}
+                texts = []
+                if fd.is_function:
+                    texts.append("call('%s', [%s], {})" % (name, ', '.join(vals)))
+                if fd.is_method and vals and vals[0] != '$c':
+                    texts.append("call('%s', [%s], {}, %s)" % (name, ', '.join(vals[1:]), vals[0]))
+                for t in texts:
+                    nlam += 1
+                    run_expr(t, binds, 'call-into-lambda-parameter/%s/%s' % (name, tp.name), 'as a lambda argument through call()')
+        rep.extra['canary_in_lambda_positions'] = nlam
         # operators, member access and index forms, call(), attack strings
         forms = ['$c.x', '$c.secret', '$c._secret', '$c.reveal()', '$c.x()', '$c?.secret', '$c?.reveal()', "$c['secret']", "$c['_secret']", '$c[0]', '$c[secret]',
                  '$c + 1', '1 + $c', '$c * 2', '-$c', '$c < 1', '$c = $c', '$c != 1', '$c in [$c]', 'not $c', '$c and 1', '$c or 1', '$c -> $', '$c.select($)',
